@@ -242,6 +242,9 @@ def run(ctx: Ctx):
     for k, c in enumerate(rig.simultaneous_cases(durs_a=ctx.scale((1, 2, 3), (1, 2, 3, 4)), durs_b=ctx.scale((1, 2), (1, 2, 3)))):
         cases.append((f"sim:{k}", c))
         ctx.count(f"simultaneous:delta={c['delta']}")
+    # deleted items of one name in every deletion order, then a restore by name (enumerated)
+    for k, c in enumerate(rig.twin_restore_cases()):
+        cases.append((f"twin:{k}", c))
     # the fix of a database service whose completion restores the backup inside a timestep (enumerated)
     for k, c in enumerate(rig.db_fix_cases(durs=ctx.scale((0, 1, 3), (0, 1, 2, 3, 5)))):
         cases.append((f"dbfix:{k}", c))
